@@ -22,15 +22,18 @@ func init() {
 		ID:    "C11",
 		Level: "exploration",
 		Rule: "histories of 12-70 container operations (constructors, views slice/cdr/rest incl. views of views, non-mutating append/append-bytes/concat/cons/reverse/map/select/reject/zip/insert-index/insert-sorted/assoc/dissoc/keys, mutators append!/append-bytes!/assoc!/dissoc!/stable-sort, containers stored in containers, quoted literals) over a heap of aliased lists, vectors, byte strings and sorted maps; operands are biased toward recent results, views of append results and zero-length appends; " +
+			"containers are also BUILT FROM THE ELEMENTS OF LIVE CONTAINERS THROUGH A CALL (apply / unpack / thread-last of list, vector, sorted-map, concat, append, cons with 0-2 leading arguments, the applied list possibly a view taken in the same expression; funcall with the elements written out; map identity; folds that rebuild; user functions and (compose identity list) handing back their &rest list; append! itself reached through apply), singly, twice from one source, or mutated in the same expression: the result is a new value in the model and never aliases its source; " +
 			"after every operation every live value is compared with a heap model (backing, offset, length). distinct_nontrivial counts distinct (operation, operand provenance classes, result kind) signatures",
 		Assumptions: []string{
 			"the model follows docs/lang.md 'Sharing, copying and mutation' and the builtin docstrings: views share elements, non-mutating operations return fresh storage, append! grows its own target, stable-sort permutes its target in place and returns a fresh list for a program literal",
 			"whether growing a vector with append! moves it to new storage is unspecified (capacity is an implementation detail): once a vector that has outstanding views is grown, later in-place effects between it and those views are not judged (the affected values are skipped until reassigned)",
 			"a map key written consistently as a string (or as a symbol) throughout its lineage must keep that spelling in the printed form and in keys; a key written both ways has no specified spelling and is compared by name only",
+			"apply / unpack call the function 'with the elements of lis as individual arguments' (docstring of unpack; docs/lang.md: 'unpacked as if the list contents had been passed ... as its arguments'), so whatever a call returns for written-out arguments -- the new list / vector / map of the constructors, and also the &rest list of a user function -- does not share storage with the applied list (switch c11JudgeRestListOfApply for the &rest case, which the documentation does not spell out separately)",
 		},
 		Cases:       func(tier string) int { return pick(tier, 5000, 300000) },
 		Run:         c11Run,
-		MinDistinct: func(tier string) int { return pick(tier, 300, 600) },
+		Driver:      c11Driver,
+		MinDistinct: func(tier string) int { return pick(tier, 1000, 2000) },
 	})
 }
 
@@ -41,6 +44,7 @@ type c11Backing struct {
 	views   int           // views ever taken over this backing
 	linked  []*c11Backing // backings that MAY be the same storage (after an append! with outstanding views)
 	tainted bool          // contents no longer predictable
+	lent    bool          // a call-built value was made from (a view of) this storage
 }
 
 type c11Val struct {
@@ -55,6 +59,8 @@ type c11Val struct {
 	spell  map[string]string // per key: "s" written as string, "y" as symbol, "*" both in its lineage (not judged)
 	by     []byte
 	prov   string // provenance class for coverage
+	born   int    // order of creation (the number of its first name)
+	via    string // call-built values and views of them: the form that built the value
 	kind2  string // keyname: spelling state
 }
 
@@ -190,6 +196,25 @@ type c11Heap struct {
 	names []string
 	vals  map[string]*c11Val
 	next  int
+	// per step, drained by c11Run
+	target     string           // the step mutates a call-built value in place: its class, c11ClassOf ("" otherwise)
+	targetBorn int              // ... and when it was made
+	events     []string         // forms of the call-built family generated by the step
+	counts     map[string]int64 // counters raised by the step
+}
+
+// noteTarget records the value a mutator is about to change in place.
+func (h *c11Heap) noteTarget(v *c11Val) {
+	h.target, h.targetBorn = c11ClassOf(v), v.born
+	if h.counts == nil {
+		h.counts = map[string]int64{}
+	}
+	if v.via != "" {
+		h.counts["call_built_values_mutated_later"]++
+	}
+	if v.b != nil && v.b.lent {
+		h.counts["call_built_sources_mutated_later"]++
+	}
 }
 
 func (h *c11Heap) pick(r *fw.RNG, ok func(*c11Val) bool) (string, *c11Val) {
@@ -217,6 +242,9 @@ func (h *c11Heap) pick(r *fw.RNG, ok func(*c11Val) bool) (string, *c11Val) {
 
 func (h *c11Heap) bind(v *c11Val) string {
 	h.next++
+	if v.born == 0 {
+		v.born = h.next
+	}
 	name := fmt.Sprintf("v%d", h.next)
 	h.names = append(h.names, name)
 	h.vals[name] = v
@@ -250,7 +278,7 @@ func c11View(v *c11Val, kind string, i, j int, prov string) *c11Val {
 		return c11Seq("vector", c11CopyCells(v.elems()[i:j]), prov+"+copy-of-literal")
 	}
 	v.b.views++
-	return &c11Val{kind: kind, b: v.b, off: v.off + i, n: j - i, sealed: v.sealed && kind == "list", prov: prov}
+	return &c11Val{kind: kind, b: v.b, off: v.off + i, n: j - i, sealed: v.sealed && kind == "list", prov: prov, via: v.via}
 }
 
 var c11Ops = []string{"list", "vector", "literal", "sorted-map", "to-bytes", "alias",
@@ -259,10 +287,13 @@ var c11Ops = []string{"list", "vector", "literal", "sorted-map", "to-bytes", "al
 	"assoc", "dissoc", "keys", "nest-list", "nest-map", "get", "elem", "elem", "insert-index-elem", "insert-sorted-elem", "cons-elem", "append-elem",
 	"append!", "append!-bind", "append-bytes!", "assoc!", "dissoc!", "stable-sort", "stable-sort-bind", "stable-sort-view-inline", "append!-view-inline", "append!-append-result-inline"}
 
+func init() { c11Ops = append(c11Ops, c11CallBuiltOps...) }
+
 // c11Step generates one operation: its lisp source and its effect on the model.
 // It returns "" when the chosen operation has no applicable operand.
 func c11Step(r *fw.RNG, h *c11Heap) (src, opname, sig string) {
 	op := fw.Pick(r, c11Ops)
+	h.target, h.events = "", nil
 	ints := func(n int) ([]*c11Val, string) {
 		cs := make([]*c11Val, n)
 		var sb strings.Builder
@@ -650,6 +681,7 @@ func c11Step(r *fw.RNG, h *c11Heap) (src, opname, sig string) {
 			return "", "", ""
 		}
 		cs, txt := ints(r.Range(0, 3))
+		h.noteTarget(v)
 		c11AppendInPlace(v, cs)
 		form := fmt.Sprintf("(append! %s%s)", n, txt)
 		if op == "append!-bind" {
@@ -691,6 +723,7 @@ func c11Step(r *fw.RNG, h *c11Heap) (src, opname, sig string) {
 		if v == nil {
 			return "", "", ""
 		}
+		h.noteTarget(v)
 		res := c11SortInPlace(v)
 		form := fmt.Sprintf("(stable-sort < %s)", n)
 		if op == "stable-sort-bind" {
@@ -707,10 +740,11 @@ func c11Step(r *fw.RNG, h *c11Heap) (src, opname, sig string) {
 		j := r.Range(i+1, v.n)
 		kind := fw.Pick(r, []string{"list", "vector"})
 		view := c11View(v, kind, i, j, "inline-view")
+		h.noteTarget(v)
 		c11SortInPlace(view)
 		return fmt.Sprintf("(stable-sort < (slice '%s %s %d %d))", kind, n, i, j), op, op + "|" + v.kind + "|" + kind + "|" + v.prov
 	}
-	return "", "", ""
+	return c11CallBuiltStep(r, h, op)
 }
 
 // c11AppendInPlace implements append! on the model.
@@ -756,7 +790,11 @@ func c11Run(w *fw.W, idx int) {
 	real := rt.New(rt.Opts{MaxSteps: 2_000_000})
 	h := &c11Heap{vals: map[string]*c11Val{}}
 	nsteps := r.Range(12, 70)
-	var log []string
+	log := []string{c11RestPrelude}
+	if v := real.Env.LoadString("c11", c11RestPrelude); v.Type == lisp.LError {
+		w.Violation("operation-failed:prelude", "defining the two &rest helper functions failed: "+v.String(), c11RestPrelude)
+		return
+	}
 	for step := 0; step < nsteps; step++ {
 		src, op, sig := c11Step(r, h)
 		if src == "" {
@@ -784,9 +822,18 @@ func c11Run(w *fw.W, idx int) {
 			if !tree.Equal(got, want, tree.Opts{IgnoreQuote: true}) {
 				culprit := op
 				key := "heap-model-disagreement:" + culprit
-				if op == "stable-sort" || op == "stable-sort-bind" || op == "stable-sort-view-inline" || strings.HasPrefix(op, "append!") {
+				if strings.HasPrefix(op, "stable-sort") || strings.HasPrefix(op, "append!") {
 					// name the provenance of the value that changed unexpectedly
 					key = fmt.Sprintf("unexpected-sharing:%s:other-value-from=%s", strings.SplitN(op, "-", 2)[0], mv.prov)
+					// ... or, when the mutator's target or the value that changed was built
+					// through a call, the form that built it: of the two, the one made
+					// later is the one that must not have aliased what existed already
+					tc, vc := h.target, c11ClassOf(mv)
+					if tc != "" && h.targetBorn >= mv.born {
+						key = fmt.Sprintf("unexpected-sharing:%s:target=%s", strings.SplitN(op, "-", 2)[0], tc)
+					} else if vc != "" {
+						key = fmt.Sprintf("unexpected-sharing:%s:other-value=%s", strings.SplitN(op, "-", 2)[0], vc)
+					}
 				}
 				w.Violation(key, fmt.Sprintf("after %q the value %s is %s but the documented discipline gives %s", src, name, got, want), strings.Join(log, "\n"))
 				return
@@ -800,6 +847,14 @@ func c11Run(w *fw.W, idx int) {
 		}
 		w.CoverKey(sig)
 		w.SetAdd("operations_seen", op)
+		for _, via := range h.events {
+			w.SetAdd("call_built_forms_seen", via)
+			w.Count("call_built_values", 1)
+		}
+		for c, n := range h.counts {
+			w.Count(c, n)
+		}
+		h.counts = nil
 	}
 	w.Max("max_live_values", int64(len(h.names)))
 	if w.WantSample() && len(log) > 15 {
